@@ -98,3 +98,25 @@ th!(c01_q_finalise_unack_complete, 14, { finalise_step(TransmissionMode::Unackno
 th!(c01_q_finalise_unack_head_missing, 14, { finalise_step(TransmissionMode::Unacknowledged, 3, 0) });
 //# funcs=RecvTransaction::process_pdu(Metadata),check_finished; bound=acknowledged mode, metadata last, head missing; stubs=S1,S2,S3,S5
 th!(c01_x_finalise_ack_metadata_last_head_missing, 14, { finalise_step(TransmissionMode::Acknowledged, 3, 1) });
+
+//# funcs=RecvTransaction::process_pdu(FileData),store_file_data,get_handle; bound=acknowledged mode, nothing held, 2 bytes (any values, incl. zeros) at offset 0..=2 of a 4-byte file: the staging file holds exactly those bytes at that offset and extends to their end; stubs=S1,S2,S3,S5
+th!(c01_q_store_file_data, 10, {
+    let ch = chans();
+    link_libc();
+    verif::set_now(Duration::from_secs(NOW));
+    let mut p = recv_parts(config(TransmissionMode::Acknowledged), NakProcedure::Deferred(Duration::ZERO), &ch);
+    p.metadata = Some(metadata(true, 4, false, ChecksumType::Modular, vec![]));
+    p.timer.inactivity = counter(10, 2, NOW, 0, false, false);
+    let mut t = RecvTransaction::verif_from_parts(p);
+    let off: u64 = kani::any();
+    kani::assume(off <= 2);
+    let d: [u8; 2] = kani::any();
+    t.process_pdu(filedata(TransmissionMode::Acknowledged, off, d.to_vec())).unwrap();
+    let o = off as usize;
+    assert!(file_len(TMP) == o + 2, "the staging file extends to the end of the received data");
+    assert!(file_byte(TMP, o) == d[0] && file_byte(TMP, o + 1) == d[1], "the staged bytes are the received bytes, at their offset");
+    kani::cover!(d[0] == 0 && d[1] == 0, "all-zero segment");
+    kani::cover!(off == 2 && d[1] != 0, "tail of the file");
+    forget(t);
+    forget(ch);
+});
